@@ -913,4 +913,11 @@ def R5_quotes(run):
                   detail="%s, %s" % (slip.replace("try_get_", "").replace("_amount_with_slippage_tolerance", ""), fee.replace("try_", "")))
 
 
-RULES = [R1_constants, R2_step, R2b_rounding_primitives, R3_loop, R4_fee_manager_ports, R5_quotes]
+def R6_cross_checks(run):
+    run.title("R6", 'the program side the SDK is compared with is itself the same on both packagings: the token-delta case table and rounding of both implementations (C08.R1 instances)')
+    from rules.common import RuleProxy
+    from rules import C08
+    C08.R1_case_split(RuleProxy(run, 'R6'))
+
+
+RULES = [R1_constants, R2_step, R2b_rounding_primitives, R3_loop, R4_fee_manager_ports, R5_quotes, R6_cross_checks]
